@@ -423,7 +423,9 @@ func (p *pep440Extension) number(input string) (int, string) {
 			break
 		}
 	}
-	num, _ := strconv.ParseUint(input[:i], 10, 64)
+	// 63 bits: an out-of-range value saturates at the largest int instead of
+	// wrapping to a negative number in the conversion below.
+	num, _ := strconv.ParseUint(input[:i], 10, 63)
 	return int(num), input[i:]
 }
 
